@@ -203,8 +203,9 @@ func scenarioC09(x *runner.X) {
 		s := dsim.Active()
 		multi := NewMultiEpoch(&Options{EpochSearchConcurrency: t.Pick(1, 2, 4)})
 		handler := newMultiEpochHandler(multi, nil)
+		srvLoad := newServerLoader()
 		load := func(i int) *Epoch {
-			ep, err := loadEpoch(worlds[i].cfg)
+			ep, err := srvLoad(worlds[i].cfg)
 			if err != nil {
 				s.Fail("harness", "loadEpoch failed", err.Error())
 			}
